@@ -4,6 +4,7 @@ package main
 
 import (
 	"fmt"
+	"sort"
 	"regexp"
 	"strconv"
 	"strings"
@@ -1067,6 +1068,66 @@ func (g *gen) longText() {
 	g.o.Stat("long_text_cases", ci)
 }
 
+// fnCases: the bit functions themselves (bitio.ReverseBytes64, mathx.TwosComplement, expandF16ToF32
+// through Float16.Float32, Float80.Float64) over all widths x boundary patterns x random values
+func (g *gen) fnCases() {
+	nRand := 24
+	if g.thorough {
+		nRand = 300
+	}
+	n := 0
+	fn := func(ws ...string) { runFn(g.o, ws); n++ }
+	for nb := 0; nb <= 65; nb++ {
+		vals := []uint64{0, ^uint64(0), 0x0102030405060708, 0x8000000000000000, 0xf0e0d0c0b0a09080, 0x00ff00ff00ff00ff}
+		for b := 0; b < 8; b++ {
+			vals = append(vals, uint64(0xff)<<(8*uint(b)), uint64(0x81)<<(8*uint(b)))
+		}
+		for i := 0; i < nRand; i++ {
+			vals = append(vals, g.r.U64())
+		}
+		for _, v := range vals {
+			fn("rev64", strconv.Itoa(nb), strconv.FormatUint(v, 16))
+			if nb < 64 {
+				fn("rev64", strconv.Itoa(nb), strconv.FormatUint(v&(uint64(1)<<uint(nb)-1), 16))
+			}
+			if nb >= 1 && nb <= 64 {
+				m := v
+				if nb < 64 {
+					m = v & (uint64(1)<<uint(nb) - 1)
+				}
+				fn("twos", strconv.Itoa(nb), strconv.FormatUint(m, 16))
+			}
+		}
+		if nb >= 1 && nb <= 64 {
+			fn("twos", strconv.Itoa(nb), strconv.FormatUint(uint64(1)<<uint(nb-1), 16))
+			fn("twos", strconv.Itoa(nb), strconv.FormatUint(uint64(1)<<uint(nb-1)-1, 16))
+		}
+	}
+	for h := 0; h < 65536; h++ {
+		fn("f16", strconv.FormatUint(uint64(h), 16))
+	}
+	for _, e := range []uint16{0, 1, 2, 0x3fff, 0x4000, 0x403e, 0x3c00, 0x3c01, 0x3bff, 0x3bcd, 0x3bcc, 0x3bcb, 0x43fe, 0x43ff, 0x4400, 0x47cf, 0x37cf, 0x7ffe, 0x7fff} {
+		for _, m := range []uint64{0, 1, 0x8000000000000000, 0x8000000000000001, 0xffffffffffffffff, 0xfffffffffffff800, 0xfffffffffffffc00, 0xfffffffffffffbff,
+			0x8000000000000400, 0x8000000000000c00, 0x8000000000000bff, 0x4000000000000000, 0x7fffffffffffffff, 0x00000000000007ff} {
+			fn("f80", strconv.FormatUint(uint64(e), 16), strconv.FormatUint(m, 16))
+			fn("f80", strconv.FormatUint(uint64(e|0x8000), 16), strconv.FormatUint(m, 16))
+		}
+	}
+	for i := 0; i < nRand*100; i++ {
+		e := uint16(g.r.Intn(0x10000))
+		if i%3 == 0 {
+			e = uint16(16383-1100+g.r.Intn(2200)) | uint16(g.r.Intn(2))<<15
+		}
+		m := g.r.U64()
+		if i%2 == 0 {
+			m |= 1 << 63
+		}
+		fn("f80", strconv.FormatUint(uint64(e), 16), strconv.FormatUint(m, 16))
+	}
+	g.o.Stat("bit_function_cases", n)
+	tieStats(g.o)
+}
+
 func generate(o *hlib.Out, cfg hlib.Config) {
 	g := &gen{o: o, r: hlib.NewRand(cfg.Seed), thorough: cfg.Thorough(), used: map[string]bool{}}
 	methods := readerMethods()
@@ -1096,6 +1157,7 @@ func generate(o *hlib.Out, cfg hlib.Config) {
 
 	g.longText()
 	g.fileCases()
+	g.fnCases()
 
 	// every scalar reader method of *decode.D (by name) must have been exercised
 	missing := 0
@@ -1104,6 +1166,27 @@ func generate(o *hlib.Out, cfg hlib.Config) {
 			missing++
 			o.Verdict("BADOP", "reader method not exercised by the generator: "+m)
 		}
+	}
+	// reader families of *decode.D (a base name with all six layer variants) that this check does not
+	// know: not covered, listed in the evidence — not a violation (e.g. a new text encoding)
+	layerRE := regexp.MustCompile(`^(Try)?(Field)?(Scalar)?(.+)$`)
+	variants := map[string]int{}
+	for i := 0; i < dType.NumMethod(); i++ {
+		n := dType.Method(i).Name
+		if m := layerRE.FindStringSubmatch(n); m != nil && !(m[3] == "Scalar" && m[2] == "") {
+			variants[m[4]]++
+		}
+	}
+	var unknown []string
+	for base, c := range variants {
+		if c >= 6 && !readerNameRE.MatchString(base) && !strings.HasSuffix(base, "Fn") {
+			unknown = append(unknown, base)
+		}
+	}
+	sort.Strings(unknown)
+	o.Stat("reader_families_not_covered", len(unknown))
+	if len(unknown) > 0 {
+		o.Sample("reader families of decode.D not covered by C02 (no model): " + strings.Join(unknown, " "))
 	}
 	o.Stat("reader_methods", len(methods))
 	o.Stat("reader_methods_exercised", len(methods)-missing)
